@@ -163,7 +163,7 @@ class EvaluationMapper(RecursiveMapper, CSECachingMapperMixin):
                 next_exp = rev_data[i+1][0]
             else:
                 next_exp = 0
-            result = (result+coeff)*ev_base**(exp-next_exp)
+            result = (result+self.rec(coeff))*ev_base**(exp-next_exp)
 
         return result
 
